@@ -50,13 +50,16 @@ def gen_parse(rng):
 class ParseRig:
     """one entered CursorAwareWindow reused for many parse cases"""
 
-    def __init__(self):
+    def __init__(self, with_callback=True):
         from curtsies import CursorAwareWindow
         self.inp = plumbing.ScriptedIn("utf-8")
         self.term = tm.Term(5, 20, reply=self.inp.push)
         self.out = plumbing.TeeOut(5, 20, sink=self.term.feed)
         self.calls = []
-        self.w = CursorAwareWindow(self.out, self.inp, extra_bytes_callback=self.calls.append)
+        if with_callback:
+            self.w = CursorAwareWindow(self.out, self.inp, extra_bytes_callback=self.calls.append)
+        else:
+            self.w = CursorAwareWindow(self.out, self.inp)
         self.w.__enter__()
         self.term.reply = None        # from now on the harness scripts the replies itself
 
@@ -68,17 +71,18 @@ class ParseRig:
             self.inp.close()
 
 
-_RIG = [None]
+_RIG = [None, None]
 
 
-def rig():
-    if _RIG[0] is None:
-        _RIG[0] = ParseRig()
-    return _RIG[0]
+def rig(with_callback=True):
+    i = 0 if with_callback else 1
+    if _RIG[i] is None:
+        _RIG[i] = ParseRig(with_callback)
+    return _RIG[i]
 
 
 def run_parse(ctx, case):
-    r = rig()
+    r = rig(case["callback"])
     inp, w = r.inp, r.w
     extra, trailing = case["extra"], case["trailing"]
     report = "%s%d;%dR" % (case["csi"], case["row"], case["col"])
@@ -93,7 +97,6 @@ def run_parse(ctx, case):
             plan[i] = True
     inp.fail_plan = plan
     del r.calls[:]
-    w.extra_bytes_callback = r.calls.append if case["callback"] else None
     del r.out.log[:]
     sig = ("C18", extra, report, trailing, tuple(case["fail_at"]), case["callback"], case["encoding"])
     nontrivial = bool(extra or trailing)
@@ -236,6 +239,7 @@ def run(ctx):
     for _ in range(ctx.share(2000 if ctx.quick else 300000)):
         run_history(ctx, gen_history(rng))
         ctx.count("histories")
-    if _RIG[0] is not None:
-        _RIG[0].close()
-        _RIG[0] = None
+    for i in (0, 1):
+        if _RIG[i] is not None:
+            _RIG[i].close()
+            _RIG[i] = None
